@@ -88,7 +88,12 @@ pub fn minus_one() -> BlsScalar {
 
 /// A scalar from a pool of edge values or random.
 pub fn pool_scalar<R: RngCore>(rng: &mut R) -> BlsScalar {
-    match rng.next_u32() % 13 {
+    match rng.next_u32() % 14 {
+        13 => {
+            // simple in the internal (Montgomery) representation instead of as
+            // an integer: limbs [k, 0, 0, 0] denote k * 2^-256 mod r
+            BlsScalar([1 + rng.next_u64() % 3, 0, 0, 0])
+        }
         12 => {
             // a "field fraction" k/m: small after multiplication by m, huge as
             // an integer ((r + k)/2, k/3, k/4, k/2^j ...)
